@@ -6,6 +6,9 @@
 //!        gverif worker <kind> ...      (internal: isolated subprocess workers)
 
 mod bits;
+mod circgen;
+mod corpus;
+mod trace;
 mod gl;
 mod ints;
 mod props;
@@ -43,9 +46,10 @@ fn main() {
     };
     // hard watchdog: 3x the largest budget; firing is inconclusive (exit 2), never a violation
     let hard = tier.pick(600u64, 3600u64);
+    let id_for_watchdog = id.clone();
     std::thread::spawn(move || {
         std::thread::sleep(std::time::Duration::from_secs(hard));
-        println!("INCONCLUSIVE property={id_} hard wall-clock watchdog ({hard}s) fired", id_ = "?");
+        println!("INCONCLUSIVE property={id_for_watchdog} hard wall-clock watchdog ({hard}s) fired");
         std::process::exit(2);
     });
     let code = props::run(&id, tier, seed);
